@@ -220,6 +220,9 @@ func (p *parser) identList() ([]string, *Error) {
 	if err := p.expectSym("("); err != nil {
 		return nil, err
 	}
+	if p.isSym(")") {
+		return nil, errf("invalid", "syntax error at or near \")\": an empty column list is not valid SQL")
+	}
 	var out []string
 	for {
 		id, err := p.ident()
@@ -344,11 +347,21 @@ func (p *parser) insertStmt() (any, *Error) {
 			return nil, err
 		}
 	}
+	if p.acceptKw("default", "values") {
+		if s.returning, s.retStar, err = p.returning(); err != nil {
+			return nil, err
+		}
+		s.cols = []string{}
+		return s, nil
+	}
 	if err := p.expectKw("values"); err != nil {
 		return nil, err
 	}
 	if err := p.expectSym("("); err != nil {
 		return nil, err
+	}
+	if p.isSym(")") {
+		return nil, errf("invalid", "syntax error at or near \")\": an empty VALUES list is not valid SQL")
 	}
 	for {
 		e, err := p.expr()
@@ -390,7 +403,14 @@ func (p *parser) updateStmt() (any, *Error) {
 			if err := p.expectSym("="); err != nil {
 				return nil, err
 			}
-			p.acceptKw("row")
+			hasRow := p.acceptKw("row")
+			if len(sc.cols) == 1 && !hasRow {
+				// PostgreSQL >= 10 (release notes, "standard row constructor
+				// syntax in UPDATE ... SET (column_list) = row_constructor"): with a
+				// single column the right-hand side is a parenthesised expression,
+				// not a row constructor, unless it says ROW
+				return nil, errf("invalid", "source for a multiple-column UPDATE item must be a sub-SELECT or ROW() expression")
+			}
 			if err := p.expectSym("("); err != nil {
 				return nil, err
 			}
